@@ -365,7 +365,9 @@ func (w *ammWorld) step() {
 func (w *ammWorld) policy() {
 	rng := w.rng
 	k := w.app.ClpKeeper
-	switch rng.Intn(7) {
+	switch rng.Intn(8) {
+	case 7: // margin bookkeeping on a pool (what x/margin's Borrow / TakeInCustody / Repay leave behind)
+		w.randomPoolMargin()
 	case 0:
 		r := rng.RateNonNeg()
 		if rng.Bool() {
@@ -446,6 +448,65 @@ func (w *ammWorld) policy() {
 		k.SetProviderDistributionParams(w.ctx, &clptypes.ProviderDistributionParams{DistributionPeriods: []*clptypes.ProviderDistributionPeriod{{DistributionPeriodBlockRate: decRaw(rate), DistributionPeriodStartBlock: start, DistributionPeriodEndBlock: stop, DistributionPeriodMod: mod}}})
 		w.cfg(fmt.Sprintf("lppd %d %d %s %d", start, stop, rate, mod))
 	}
+}
+
+// poolMargin writes the margin fields of a pool the way x/margin does: liabilities are pure bookkeeping
+// (no coins move), custody is carved out of the pool's own balance (balance + custody is unchanged).
+func (w *ammWorld) poolMargin(sym string, nL, eL, nC, eC *big.Int) {
+	p := w.pool(sym)
+	if p == nil {
+		return
+	}
+	nTot := new(big.Int).Add(p.NativeAssetBalance.BigInt(), p.NativeCustody.BigInt())
+	eTot := new(big.Int).Add(p.ExternalAssetBalance.BigInt(), p.ExternalCustody.BigInt())
+	if nC.Cmp(nTot) > 0 || eC.Cmp(eTot) > 0 {
+		return
+	}
+	p.NativeLiabilities, p.ExternalLiabilities = uintOf(nL), uintOf(eL)
+	p.NativeCustody, p.ExternalCustody = uintOf(nC), uintOf(eC)
+	p.NativeAssetBalance, p.ExternalAssetBalance = uintOf(new(big.Int).Sub(nTot, nC)), uintOf(new(big.Int).Sub(eTot, eC))
+	if err := w.app.ClpKeeper.SetPool(w.ctx, p); err != nil {
+		panic(err)
+	}
+	w.cfg(fmt.Sprintf("poolmargin %s %s %s %s %s", sym, nL, eL, nC, eC))
+}
+
+func (w *ammWorld) randomPoolMargin() {
+	rng := w.rng
+	sym := ammTokens[rng.Intn(len(ammTokens))]
+	p := w.pool(sym)
+	if p == nil {
+		return
+	}
+	frac := func(x *big.Int) *big.Int { // 0, a small part, or up to twice x
+		switch rng.Intn(4) {
+		case 0:
+			return big.NewInt(0)
+		case 1:
+			return new(big.Int).Quo(x, big.NewInt(int64(2+rng.Intn(50))))
+		case 2:
+			return rng.Near(x)
+		default:
+			return new(big.Int).Quo(new(big.Int).Mul(x, big.NewInt(int64(rng.Intn(200)))), big.NewInt(100))
+		}
+	}
+	nTot := new(big.Int).Add(p.NativeAssetBalance.BigInt(), p.NativeCustody.BigInt())
+	eTot := new(big.Int).Add(p.ExternalAssetBalance.BigInt(), p.ExternalCustody.BigInt())
+	nC, eC := frac(nTot), frac(eTot)
+	if nC.Cmp(nTot) > 0 || nC.Sign() < 0 {
+		nC = big.NewInt(0)
+	}
+	if eC.Cmp(eTot) > 0 || eC.Sign() < 0 {
+		eC = big.NewInt(0)
+	}
+	nL, eL := frac(nTot), frac(eTot)
+	if nL.Sign() < 0 {
+		nL = big.NewInt(0)
+	}
+	if eL.Sign() < 0 {
+		eL = big.NewInt(0)
+	}
+	w.poolMargin(sym, nL, eL, nC, eC)
 }
 
 // ---- explicit operations (used by the directed family) ----
@@ -765,6 +826,30 @@ func init() {
 			for i := 0; i < 8 && !w.halted; i++ {
 				w.opEndBlock()
 			}
+		}
+		// D7: decommission of a small pool that carries margin liabilities, next to another pool and a bucket
+		// that share the module account: the refunds are computed on depth = balance + liabilities
+		for _, native := range []bool{true, false} {
+			w := newAmmWorld(rng, out, 3, -1)
+			w.fundAll()
+			w.opCreate(w.users[0], "cusdc", e18(5), e18(5))
+			w.opBucket(w.users[0], "ceth", e18(2))
+			half := new(big.Int).Quo(e18(1), big.NewInt(2))
+			w.opCreate(w.users[0], "ceth", e18(1), e18(1))
+			w.opAdd(w.users[1], "ceth", new(big.Int).Quo(half, big.NewInt(2)), new(big.Int).Quo(half, big.NewInt(2)))
+			// shrink the pool below the decommission threshold
+			if lp, err := w.app.ClpKeeper.GetLiquidityProvider(w.ctx, "ceth", w.users[0].String()); err == nil {
+				u := new(big.Int).Mul(lp.LiquidityProviderUnits.BigInt(), big.NewInt(3))
+				w.opRmu(w.users[0], "ceth", u.Quo(u, big.NewInt(4)))
+			}
+			tenth := new(big.Int).Quo(e18(1), big.NewInt(10))
+			if native {
+				w.poolMargin("ceth", tenth, big.NewInt(0), big.NewInt(0), new(big.Int).Quo(tenth, big.NewInt(2)))
+			} else {
+				w.poolMargin("ceth", big.NewInt(0), tenth, new(big.Int).Quo(tenth, big.NewInt(2)), big.NewInt(0))
+			}
+			w.opDecom("ceth")
+			w.opSwap(w.users[2], "rowan", "cusdc", e18(1), big.NewInt(0))
 		}
 		// D5: a zero-unit provider is the only eligible provider of an asset with a funded bucket
 		{
